@@ -19,6 +19,18 @@ from .validator import Validator, assign_baked_in
 from .validator_conformance import check_dash_result
 
 
+def _reset_per_call_caches():
+    """
+    The blank-node text cache and the SPARQL validator cache are keyed by id(graph): a graph can be edited
+    between two calls (and CPython re-uses ids), so what they hold must not outlive the call that filled them.
+    """
+    from .constraints.sparql.sparql_based_constraint_components import SPARQLConstraintComponentValidator
+    from .rdfutil.stringify import stringify_blank_node
+
+    stringify_blank_node.dict_cache.clear()
+    SPARQLConstraintComponentValidator.validator_cache.clear()
+
+
 def validate(
     data_graph: Union[GraphLike, BufferedIOBase, TextIOBase, str, bytes],
     *args,
@@ -74,6 +86,7 @@ def validate(
     log = make_default_logger(name="pyshacl-validate", debug=do_debug)
     apply_patches()
     assign_baked_in()
+    _reset_per_call_caches()
     do_check_dash_result = kwargs.pop('check_dash_result', False)  # type: bool
     if kwargs.get('meta_shacl', False):
         to_meta_val = shacl_graph or data_graph
@@ -281,6 +294,7 @@ def shacl_rules(
     log = make_default_logger(name="pyshacl-rules", debug=do_debug)
     apply_patches()
     assign_baked_in()
+    _reset_per_call_caches()
     do_owl_imports = kwargs.pop('do_owl_imports', False)
     data_graph_format = kwargs.pop('data_graph_format', None)
     if kwargs.get('sparql_mode', None):
